@@ -171,6 +171,18 @@ func c04(args []string) {
 		}
 		jobs = append(jobs, &job{s, exp, []Cfg{{Buf: 1, Procs: 4, MaxTasks: 4}, {Buf: 3, Procs: 1, MaxTasks: 4}, {Buf: 128, Procs: 2, MaxTasks: 8}}, 100000 + d})
 	}
+	// partial runs in which a source feeds one process inside and one outside the run set (more items than
+	// buffer slots): every item must still reach the process that is run, whatever the buffer size
+	for d, s := range c05Shapes(c, rng) {
+		if !strings.HasPrefix(s.Name, "runtoparamfan") && !strings.HasPrefix(s.Name, "runtofilefan") && !strings.HasPrefix(s.Name, "runtocut") {
+			continue
+		}
+		exp := evalRef(s, nil)
+		if exp.Err != "" {
+			c.Broken("reference cannot evaluate " + s.Name + ": " + exp.Err)
+		}
+		jobs = append(jobs, &job{s, exp, []Cfg{{Buf: 1, Procs: 4, MaxTasks: 4}, {Buf: 3, Procs: 1, MaxTasks: 4}, {Buf: 128, Procs: 2, MaxTasks: 8, NoHooks: true}}, 200000 + d})
+	}
 	type flat struct {
 		j *job
 		k int
